@@ -417,6 +417,7 @@ func registerStubs(ex *Exec) {
 		return &TupleV{E: []Value{Nil, &IfaceV{T: nil, V: ex.newOpaque("error")}}}
 	}
 	registerTomlStubs(ex)
+	registerSyncMapStubs(ex)
 	registerFSStubs(ex)
 	registerStringStubs(ex)
 	registerRegexStubs(ex)
@@ -624,5 +625,54 @@ func registerTomlStubs(ex *Exec) {
 		fail := ex.freshBool("readfile_fails")
 		data := ex.strToBytes(st, ConcreteStr("<file>"))
 		return &TupleV{E: []Value{mergeV(fail, Value(&SliceV{Obj: 0, Len: bv64(0)}), data), mergeV(fail, &IfaceV{T: nil, V: ex.newOpaque("error")}, Nil)}}
+	}
+}
+
+// sync.Map: an association list addressed by the map's address (interface-typed keys and values).
+func (ex *Exec) syncMapObj(st *State, p Value) int {
+	ptr, ok := p.(*PtrV)
+	if !ok {
+		panic(unsupported("sync.Map addressed by " + describe(p)))
+	}
+	key := fmt.Sprintf("syncmap:%d:%v", ptr.Obj, ptr.Path)
+	if ex.syncIDs == nil {
+		ex.syncIDs = map[string]int{}
+	}
+	id, ok := ex.syncIDs[key]
+	if !ok {
+		id = ex.nextObj
+		ex.nextObj++
+		ex.syncIDs[key] = id
+	}
+	if _, ok := st.heap[id]; !ok {
+		st.heap[id] = &MapC{}
+	}
+	return id
+}
+
+func registerSyncMapStubs(ex *Exec) {
+	S := ex.Stubs
+	anyT := types.NewInterfaceType(nil, nil)
+	mt := types.NewMap(anyT, anyT)
+	S["(*sync.Map).Load"] = func(ex *Exec, st *State, site ssa.Instruction, fn *ssa.Function, args []Value) Value {
+		id := ex.syncMapObj(st, args[0])
+		v, ok := ex.mapLookup(st, &MapV{Obj: id}, args[1], mt)
+		return &TupleV{E: []Value{v, ok}}
+	}
+	S["(*sync.Map).Store"] = func(ex *Exec, st *State, site ssa.Instruction, fn *ssa.Function, args []Value) Value {
+		id := ex.syncMapObj(st, args[0])
+		ex.mapUpdate(st, site, &MapV{Obj: id}, args[1], args[2])
+		return nil
+	}
+	S["(*sync.Map).Delete"] = func(ex *Exec, st *State, site ssa.Instruction, fn *ssa.Function, args []Value) Value {
+		id := ex.syncMapObj(st, args[0])
+		ex.mapDelete(st, &MapV{Obj: id}, args[1])
+		return nil
+	}
+	S["(*sync.Map).LoadOrStore"] = func(ex *Exec, st *State, site ssa.Instruction, fn *ssa.Function, args []Value) Value {
+		id := ex.syncMapObj(st, args[0])
+		v, ok := ex.mapLookup(st, &MapV{Obj: id}, args[1], mt)
+		ex.guarded(st, smt.Not(ok), func(st *State) { ex.mapUpdate(st, site, &MapV{Obj: id}, args[1], args[2]) })
+		return &TupleV{E: []Value{mergeV(ok, v, args[2]), ok}}
 	}
 }
